@@ -72,7 +72,14 @@ def run(tier, seed, args):
     log(f"[C03] (A) MC_Encode: {len(cases)} scene x layout cases, decoder(encoder(case)) = case for each")
     inp, n = build_inputs(cases, wd, "c03")
     raw = os.path.join(wd, "c03.raw.ndjson")
-    vlib.harness(exe, ["e57-read", "--cases", inp, "--out", raw])
+    aborts = vlib.harness_supervised(exe, ["e57-read", "--cases", inp], raw, n)
+    vlib.drop_aborted_runs(raw, {a[0] for a in aborts})
+    for idx, kind, err in aborts:
+        # the reader did not survive a well-formed file: unbounded allocation, stack overflow or a hang
+        case = json.loads(open(inp).read().splitlines()[idx])
+        rp = os.path.join(wd, "replay", f"c03_abort_{idx}.json"); os.makedirs(os.path.dirname(rp), exist_ok=True)
+        json.dump({"kind": kind, "stderr": err, "case": case}, open(rp, "w"))
+        v.violation(f"reader-process-{kind}@{case['name']}", rp, f"(the harness process reading case {idx} '{case['name']}' ended with {kind})")
     tr = os.path.join(wd, "c03.trace.ndjson")
     xmlproj.augment_trace(raw, tr)
     os.remove(raw); os.remove(inp)
